@@ -142,18 +142,20 @@ CLAIMED = {
        "Last-resort key packages need a cargo feature the default build lacks: not exercised. External-commit joins are checked by the oracle only.",
   ref="DESIGN.md §4 C07"),
  "C08": dict(
-  technique="Lean 4 proof (shape, trimming, leftmost placement, unmerged-list and uniqueness invariants for every reachable tree; incremental tree-hash cache = from-scratch RFC tree hash for every history) + observer validation, independent tree-hash recomputation and hash-cache partition rows on real histories",
-  text="Theorems MlsVerif.Props.C08 on the tree model: no trailing blank after batchEdit / encap / applyUpdatePath, added leaves occupy the leftmost blank slots in order (incl. soundness of "
-       "the `start` shortcut), ShapeInv / UnmergedInv / UniqInv / NonEmptyInv preserved by every operation, hence WF for every reachable tree (reachable_trees_wf). Theorems "
-       "MlsVerif.Props.C08Hash on a faithful model of tree_hash.rs (resize, leaf loop, FIFO parent queue with duplicates, right-to-left scan for missing entries): tree_hash_full (a full "
-       "computation from any old cache is the RFC 9420 section 7.8 recursion), update_hashes_coherent (an incremental update with the leaf list the code passes restores coherence after any "
-       "change confined to the direct paths of those leaves, after growth and after trimming), coherent_preserved_batchEdit / _encap / _applyUpdatePath, reachable_cache_coherent and "
-       "reachable_context_tree_hash (in every reachable state the context's tree hash is the from-scratch hash of the tree), grow_only_resize_breaks_coherence (machine-checked witness that "
-       "dropping the truncation breaks it). Tie: tree stream (~7.5k rows) + ~3k `thashspec` rows per quick run comparing, for every member and commit, the partition of previous ++ current "
-       "cache entries by equal bytes with the partition by equal hash terms of the model; direct oracle after every commit: exported tree + GroupInfo pass ExternalClient::observe_group and "
-       "every joiner's validation, the context tree hash equals a from-scratch recomputation written in the harness.",
-  note="PARTIAL, stated: validity of the parent-hash chains for all histories (TreeSync) is NOT proved; it is decided only by the oracle above on the explored histories. The hash is a free "
-       "(injective) symbol in the cache theorems. Trusted: Lean kernel, tree and tree-hash models validated by the streams, harness.",
+  technique="Lean 4 proof (shape / trimming / placement / unmerged / uniqueness invariants; incremental tree-hash cache = from-scratch RFC tree hash; TreeSync: every reachable tree is parent-hash valid and accepted by the model of validate_parent_hashes) + tree, tree-hash and parent-hash correspondence rows, observer validation and independent tree-hash recomputation on real histories",
+  text="Theorems MlsVerif.Props.C08: no trailing blank after batchEdit / encap / applyUpdatePath, added leaves occupy the leftmost blank slots in order, ShapeInv / UnmergedInv / UniqInv / "
+       "NonEmptyInv preserved, hence WF for every reachable tree (reachable_trees_wf). MlsVerif.Props.C08Hash on a faithful model of tree_hash.rs: tree_hash_full, update_hashes_coherent, "
+       "coherent_preserved_batchEdit / _encap / _applyUpdatePath, reachable_cache_coherent, reachable_context_tree_hash, and the negative witness grow_only_resize_breaks_coherence. "
+       "MlsVerif.Props.C08Sync (27 theorems, the TreeSync result) on a model of parent_hash.rs and compute_original_hashes: validate_iff_valid (the algorithm decides the declarative RFC 9420 "
+       "7.9.2 predicate), original_hashes_spec, update_path_valid / update_path_total / sender_receiver_agree / receiver_accepts_iff / receiver_rejects, original_hash_stable (the key lemma: the "
+       "unmerged-filtered tree hash of a surviving parent's sibling does not change), batchEdit_preserves_valid (add / remove / update), reachable_parent_hash_valid, "
+       "reachable_accepted_by_joiner, reachable_authenticated, with decide-checked histories, the negative witness current_hash_breaks_validity and the counterexample "
+       "valid_needs_fresh_path_keys. Tie per quick run: ~7.5k tree rows, ~3k `thashspec` rows (hash-cache partition), ~3.8k `phvalid` rows (every member's real tree and stored parent hashes "
+       "satisfy the model's witness condition) and `phupd` rows (the model of update_parent_hashes reproduces the stored parent hashes of pure path commits, as byte-equality partitions); direct "
+       "oracle after every commit: exported tree + GroupInfo pass ExternalClient::observe_group and every joiner's validation, the context tree hash equals a from-scratch recomputation.",
+  note="Hashes are free (injective) symbols. Side condition of the TreeSync theorem, explicit in the statement: fresh path keys differ from every key occurring inside stored (possibly stale) "
+       "parent hashes (PhKeysBelow) - true for keys derived from fresh randomness, false in the model otherwise (machine-checked counterexample). The tree-hash terms of the model omit the "
+       "parent_hash field of inner parent nodes (abstraction inherited from the tree-hash model). Trusted: Lean kernel, models validated by the streams, harness.",
   ref="DESIGN.md §4 C08, §12"),
  "C09": dict(
   technique="Lean 4 proof (KeyInv preserved by every commit for committer, receivers, updated members and joiners; decap position agreement; fresh path keys) + private-slot correspondence and seal/open probes",
